@@ -215,7 +215,7 @@ def rule_typed_attrs(ctx):
     dc = A.get_fn(ctx.files, "impl/src/fmt/display.rs", "<ContainerAttributes as Parse>::parse")
     t = A.fn_text(dc)
     ctx.instance("display:lookahead")
-    if "ahead.peek(LitStr)||ahead.peek(ident::bounds)||ahead.peek(ident::bound)||ahead.peek(token::Where)" not in t or "ahead.peek(ident::rename_all)" not in t or "return Err(ahead.error())" not in t:
+    if "ahead.peek(LitStr)||ahead.peek(ident::bounds)||ahead.peek(ident::bound)||ahead.peek(token::Where)" not in t or "ahead.peek(ident::rename_all)" not in t or "Err(ahead.error())" not in t:
         ctx.report("typed:display-lookahead", ctx.where(dc.file, dc.node), "Display container attribute dispatch no longer recognises literal / bound / bounds / where / rename_all and rejects the rest", {})
     # legacy syntax detection on every path into the fmt parsers
     n = 0
